@@ -22,6 +22,19 @@ extensions is a state; laws ListShape / order-freedom / AnyOpens; the rows are a
 through configured instances (LogConfig -> ValidateLogConfig -> instance set-up) and through ValidateLogConfig +
 NewCertValidationOpts + ValidateChain.
 
+Entries as bytes (ChainAdmission.tla: Form, EntryParses, EntryLaw): a submitted entry is a certificate in some encoding
+followed by something or nothing.  Every certificate of the 33 base chains, at every position, is submitted in four
+encodings (DER; serial number / version INTEGER padded with a leading 00 and signed anew; outer length padded) x five
+trailers (none, one octet, several, a well-formed element, a second certificate); one trusted pool holds the root in a
+padded encoding.  Only "nothing follows" in a read encoding is a certificate; the path handed on carries the form as
+submitted, byte for byte.
+
+The NotAfter window over the whole line (MCChainAdmissionWin.tla, FRAMES of ChainAdmissionWorld.tla): every window as
+configured - start / limit absent or at any instant 1..8 - x leaves expiring at every instant 1..8, and EVERY case of
+the check, are realized in four frames: ordinary dates before / after the wall clock, and the instants spread over
+year 500 .. 1677-09-21T00:12:43Z | 44Z .. 1950 resp. 2049 .. 2262-04-11T23:47:16Z | 17Z .. 2300 .. 9999-12-31T23:59:59Z,
+so that bounds on ordinary dates meet NotAfter values beyond what a 64-bit nanosecond count holds (law FrameFree).
+
 History layer (spec/ctfe/ChainAdmissionLog.tla): a log serving many requests while the clock advances; the law is that
 admission is a FUNCTION of the request, the configuration at set-up and the clock at the instant of that request
 (JudgedAlone, NothingRemembered, ConfigFixed, Repeatable, WhenShape).  Checked exhaustively on a small instance, refuted
@@ -59,6 +72,17 @@ ASSUME = [
     "signer's key; several certificates may share a key and identifier under different names, or a name under different keys). "
     "Hierarchies where an authority key identifier points at another key than the signer's are not exercised",
     "configured lists use names the front end knows (unknown names are refused at configuration time: C15)",
+    "NAMED CLAUSES PaddedIntegersRead / PaddedLengthRefused: which deviations from DER still 'parse' is recorded from the code - "
+    "an INTEGER of the TBSCertificate with a superfluous leading 00 octet (serial number, version) is read, a length with one is "
+    "refused; other tolerated deviations (empty OBJECT IDENTIFIER, PrintableString contents) lie inside fields that are decoded "
+    "separately and are not exercised here (C10 / C11)",
+    "NAMED CLAUSE PaddedPrecertRefused (observation): a PRECERTIFICATE leaf whose TBSCertificate carries a padded INTEGER passes "
+    "ctfe.ValidateChain but is refused by add-pre-chain with 400 (the entry is rebuilt from the TBSCertificate with the strict "
+    "decoder: 'failed to remove poison extension ... integer not minimally-encoded'), while add-chain admits a certificate with the "
+    "same padding; padded certificates further up the chain, the pre-issuer included, are admitted",
+    "frames: a frame is a strictly monotone placement of the instants 0..9 on landmarks; the harness checks the order of the "
+    "landmarks and the side of the wall clock at start-up.  Instant 0 of a frame is never the zero time.Time (options read it as "
+    "'no time given'); year 10000 appears as 'now' of direct calls only",
 ]
 
 
@@ -68,7 +92,8 @@ def model(ctx, cfg):
     if len(cases) != r.distinct or not cases:
         raise Infra("expected one CASE record per state, got %d for %d states" % (len(cases), r.distinct))
     try:
-        tables = {"opts": r.records["OPTS"][0], "certs": r.records["CERTS"][0], "trust": r.records["TRUST"][0]}
+        tables = {"opts": r.records["OPTS"][0], "certs": r.records["CERTS"][0], "trust": r.records["TRUST"][0],
+                  "forms": r.records["FORMS"][0], "frames": r.records["FRAMES"][0]}
     except KeyError as ex:
         raise Infra("model did not export table %s" % ex)
     ok = [c for c in cases if c["ok"]]
@@ -83,9 +108,40 @@ def model(ctx, cfg):
     dpools = set(c["T"] for c in decoy)
     if len(decoy) < 40 or len(dpools) < 4 or not any(c["admP"] for c in decoy):
         raise Infra("vacuous model: %d chains in order with a decoy in the trusted pool (pools %s)" % (len(decoy), sorted(dpools)))
-    ctx.log("%s: %d states (%d chains in order, %d of them past a decoy in the trusted pool), perturbations %s, %d option combinations" % (
-        cfg, len(cases), len(ok), len(decoy), sorted(tags), len(tables["opts"])))
+    # the forms of an entry: every encoding x trailer at the leaf and further up, the padded INTEGERs in chains in order,
+    # a chain in order under the pool that holds the padded root
+    forms = [c for c in cases if c["tags"] and c["tags"][0].startswith("entry:")]
+    classes = set(c["tags"][0] for c in forms)
+    readable = set(c["tags"][0] for c in forms if c["ok"])
+    if len(classes) != 19 or readable != {"entry:serialPad+none", "entry:versionPad+none"} \
+            or not any(c["kind"] == "unparsable" for c in forms) or not any(c["kind"] != "unparsable" and not c["ok"] for c in forms) \
+            or not any(c["ok"] and c["T"] == "TS" for c in cases):
+        raise Infra("vacuous model: forms of an entry %s, read %s" % (sorted(classes), sorted(readable)))
+    ctx.log("%s: %d states (%d chains in order, %d of them past a decoy in the trusted pool; %d with an entry in another form, %d of them in order), "
+            "perturbations %s, %d option combinations" % (
+                cfg, len(cases), len(ok), len(decoy), len(forms), sum(c["ok"] for c in forms),
+                sorted(t for t in tags if not t.startswith("entry:")), len(tables["opts"])))
     return cases, tables
+
+
+def win_model(ctx):
+    """The NotAfter window as configured, over the whole line: one WIN record per (start, limit, rest of the options)."""
+    r = ctx.tlc("ctfe", "MCChainAdmissionWin", "ChainAdmissionWin.cfg", workers=1, timeout=900)
+    recs = r.records.get("WIN", [])
+    if len(recs) != r.distinct or not recs:
+        raise Infra("expected one WIN record per state, got %d for %d states" % (len(recs), r.distinct))
+    recs.sort(key=lambda x: (x["row"]["rest"], x["row"]["start"], x["row"]["limit"]))
+    shapes = set((x["row"]["start"] >= 0, x["row"]["limit"] >= 0) for x in recs)
+    adm = sum(c["v"]["val"] for x in recs for c in x["chains"])
+    tot = sum(len(x["chains"]) for x in recs)
+    # start only / limit only / both / none; every leaf both admitted and refused under one-sided windows
+    one_sided = [x for x in recs if (x["row"]["start"] >= 0) != (x["row"]["limit"] >= 0) and not x["row"]["rejExp"] and not x["row"]["rejUnexp"]]
+    both_ways = all(any(x["chains"][i]["v"]["val"] for x in one_sided) and any(not x["chains"][i]["v"]["val"] for x in one_sided)
+                    for i in range(1, len(recs[0]["chains"]) - 1))
+    if len(shapes) != 4 or not 0 < adm < tot or not both_ways:
+        raise Infra("vacuous window model: shapes %s, %d of %d verdicts admit" % (sorted(shapes), adm, tot))
+    ctx.log("ChainAdmissionWin.cfg: %d windows as configured x %d leaves (%d of %d verdicts admit)" % (len(recs), len(recs[0]["chains"]), adm, tot))
+    return recs
 
 
 def cfg_model(ctx):
@@ -114,20 +170,20 @@ def cfg_model(ctx):
     return recs
 
 
-def merge(tables, cases, recs):
+def merge(tables, cases, recs, flag="spelled", tag="as-configured"):
     """Append the configurations as written to the option table and their chains to the cases (verdict sets over the
     appended rows only: Case.rows)."""
-    nbase = len(tables["opts"])
-    tables["nbase"] = nbase
+    tables.setdefault("nbase", len(tables["opts"]))
+    first = len(tables["opts"])
     extra = []
     for j, rec in enumerate(recs):
-        k = nbase + j + 1
+        k = first + j + 1
         row = dict(rec["row"])
-        row["spelled"] = True
+        row[flag] = True
         tables["opts"].append(row)
         for i, cv in enumerate(rec["chains"]):
             if j == 0:
-                extra.append({"ch": cv["ch"], "T": cv["T"], "tags": ["as-configured"], "ok": cv["ok"], "kind": cv["kind"], "paths": cv["paths"],
+                extra.append({"ch": cv["ch"], "T": cv["T"], "tags": [tag], "ok": cv["ok"], "kind": cv["kind"], "paths": cv["paths"],
                               "decoy": False, "val": [], "admC": [], "admP": [], "rows": []})
             e = extra[i]
             if e["ch"] != cv["ch"]:
@@ -203,6 +259,7 @@ def run(ctx, replay=None):
     if "walk" in data or "case" in data:
         _, tables = model(ctx, "MCChainAdmission.cfg")
         merge(tables, [], cfg_model(ctx))
+        merge(tables, [], win_model(ctx), flag="win", tag="window")
         tpath = ctx.write_ndjson("tables.json", [tables])
         if "walk" in data:
             # one history; a difference in the in-order phase is asserted at that request only
@@ -217,27 +274,46 @@ def run(ctx, replay=None):
         fm = pool.submit(model, ctx, ctx.pick("MCChainAdmission.cfg", "MCChainAdmission2.cfg"))
         fl = pool.submit(log_model, ctx)
         fc = pool.submit(cfg_model, ctx)
+        fw = pool.submit(win_model, ctx)
         cases, tables = fm.result()
         small = fl.result()
         recs = fc.result()
+        wins = fw.result()
     ncases = len(cases)
     cases = merge(tables, cases, recs)
+    cases = merge(tables, cases, wins, flag="win", tag="window")
     walks = walks_of(ctx, ctx.pick(300, 3000))
     tpath = ctx.write_ndjson("tables.json", [tables])
     cpath = ctx.write_ndjson("cases.ndjson", cases)
     with ThreadPoolExecutor(max_workers=2) as pool:
         fr = pool.submit(ctx.go_test, "c02", run="TestReplay$", env={"VERIF_TABLES": tpath, "VERIF_CASES": cpath}, timeout=3300)
         fh = pool.submit(history, ctx, walks, tpath)
-        fr.result()
+        _, _, reports = fr.result()
         fh.result()
+    # vacuity: every frame of the specification was realized - by the cases at large and by the windows as configured -
+    # and every class of entry form reached ValidateChain
+    counters = {}
+    for rp in reports:
+        counters.update(rp.get("extra") or {})
+    frames = sorted(tables["frames"]["frames"])
+    classes = sorted(set(c["tags"][0] for c in cases if c["tags"] and c["tags"][0].startswith("entry:")))
+    missing = [f for f in frames if not counters.get("frame:" + f) or not counters.get("window-frame:" + f)] + \
+              [t for t in classes if not counters.get(t)]
+    if missing:
+        raise Infra("the harness did not realize %s" % missing)
+    ctx.log("frames realized: %s; windows as configured per frame: %s" % (
+        {f: counters["frame:" + f] for f in frames}, {f: counters["window-frame:" + f] for f in frames}))
     # the two harness runs finish in any order: report the differences of the case replay first, then those of the histories
     ctx.violations.sort(key=lambda v: v["fingerprint"].startswith(("history:", "purity:", "race:")))
     ctx.exhaustive = {"domain": "33 base chains (+7 submitted unperturbed) x %s x 7 trusted pools, x 4 decoy pools (%s); 2160 option "
                                 "combinations x 2 endpoints evaluated by TLC in every state; %d configurations as written (EKU lists of up to %d "
-                                "names over 5, forbidden-extension lists of up to 2) x 11 chains" % (
+                                "names over 5, forbidden-extension lists of up to 2) x 11 chains; every submitted certificate at every position of the "
+                                "33 base chains in 4 encodings x 5 trailers x 4 trusted pools; %d NotAfter windows as configured (start, limit absent or "
+                                "at instants 1..8, 4 rests of the options) x 8 leaves, in every frame (%s)" % (
                                     ctx.pick("every single perturbation", "one or two stacked perturbations"),
-                                    ctx.pick("unperturbed, drop, swap, forge", "every single perturbation"), len(recs), ctx.pick(3, 4)),
-                      "states": ncases + len(recs),
+                                    ctx.pick("unperturbed, drop, swap, forge", "every single perturbation"), len(recs), ctx.pick(3, 4),
+                                    len(wins), ", ".join(frames)),
+                      "states": ncases + len(recs) + len(wins),
                       "history": "%s: %d states (two logs x %s configurations, five chains, clock 3..6), all laws; %d random "
                                  "walks replayed" % (ctx.pick("ChainAdmissionLogSmall.cfg", "ChainAdmissionLogBig.cfg"), small,
                                                      ctx.pick("five", "sixteen"), len(walks))}
